@@ -90,6 +90,11 @@ def predictHard (goes : N → X → Bool) (f : L → X → Y) (t : Tree N L) (xs
 def batched (bs : Nat) (F : List X → List Y) (xs : List X) : List Y :=
   (List.range ((xs.length + bs - 1) / bs)).flatMap fun k => F ((xs.drop (k * bs)).take bs)
 
+/-- A blocked loop in general: `for i in range(0, n, step): out.append(F(samples[i:i+width]))`, concatenated
+(`batched bs = chunked bs bs`). -/
+def chunked (step width : Nat) (F : List X → List Y) (xs : List X) : List Y :=
+  (List.range ((xs.length + step - 1) / step)).flatMap fun k => F ((xs.drop (k * step)).take width)
+
 /-- Kernel expansion of a leaf: `Σ_i α_i · k(x, c_i)`. -/
 def kexp {α : Type} [Add α] [Mul α] [OfNat α 0] (k : X → X → α) (centers : List X) (alpha : List α) (x : X) : α :=
   (centers.zip alpha).foldl (fun s ca => s + ca.2 * k x ca.1) 0
